@@ -81,7 +81,10 @@ Fixpoint wrap_hard_segments (base : wrapper) (segs : list str) (first : bool) (i
   | [seg] => w <- base seg (if first then i1 else i2) i2 ;; ret [w]
   | seg :: rest =>
       w <- base seg (if first then i1 else i2) i2 ;;
-      let w := match w with [] => (if first then i1 else i2) | _ => w end in   (* an empty segment keeps its indent *)
+      let w := match w with
+               | [] => (if first then i1 else i2)                    (* an empty segment keeps its indent *)
+               | _ => if endswith w [nl] then w ++ i2 else w           (* the backslash starts a line of its own *)
+               end in
       ws <- wrap_hard_segments base rest false i1 i2 ;;
       ret ((w ++ [bsl]) :: ws)
   end.
